@@ -12,7 +12,8 @@ Local Open Scope Z_scope.
 (* The payload a scalar type hands to [subtypeSpec(value)] after prettyIn(), which is also how an
    ASN.1 scalar object found as a component of a SEQUENCE behaves under ==, <, len(), iter()
    and hash() (SimpleAsn1Type forwards all of these to its payload).
-   Not modelled as a component: BIT STRING objects (their __lt__ compares lengths first). *)
+   Not modelled as a component: BIT STRING objects (their __lt__ compares lengths first);
+   [SOid] is always the raw tuple (an OBJECT IDENTIFIER object is not a tuple for [%]). *)
 Inductive sval :=
 | SInt (z: Z)                 (* int: INTEGER, BOOLEAN, ENUMERATED *)
 | SBytes (b: list N)          (* bytes: OCTET STRING, NULL *)
@@ -159,7 +160,15 @@ Fixpoint ceval (c: constr) (idx: option sval) (x: cval) {struct c} : verdict :=
   | CSize lo hi => size_test lo hi x
   | CAlpha vs => alpha_test vs x
   | CPresent => match x with VNone => Fail | _ => Pass end
-  | CAbsent => match x with VNone => Pass | _ => Fail end
+  | CAbsent =>
+      match x with
+      | VNone => Pass
+      | VS (SOid a) =>
+          (* the error message is built with ['...%r' % value]: a raw tuple is taken as the
+             argument list, which only fits when it has exactly one element *)
+          if Nat.eqb (length a) 1 then Fail else Crash TypeError
+      | _ => Fail
+      end
   | CWith fields =>
       match x with
       | VMap m =>
@@ -491,3 +500,25 @@ Definition outcome_eqb (a b: res sval) : bool :=
   end.
 Definition is_unmodelled (a: res sval) : bool :=
   match a with Err EUnmodelled => true | _ => false end.
+
+(* ---- helpers for the correspondence files ---- *)
+
+(* T, T.subtype(step1), T.subtype(step1).subtype(step2), ...; stops where a step is refused
+   (tagExplicitly refuses the UNIVERSAL class) *)
+Fixpoint derive_chain (T: stype) (steps: list (tagging * option constr)) : list stype :=
+  T :: match steps with
+       | [] => []
+       | (tg, new) :: r =>
+           match subtype_step T tg new with Ok T' => derive_chain T' r | Err _ => [] end
+       end.
+(* [Ti.isSuperTypeOf(Tj)] for two members of a chain *)
+Definition chain_super (ts: list stype) (i j: nat) (expected: bool) : bool :=
+  match nth_error ts i, nth_error ts j with
+  | Some a, Some b => Bool.eqb (type_is_super true true a b) expected
+  | _, _ => false
+  end.
+Definition chain_construct (ts: list stype) (i: nat) (x: sval) (expected: res sval) : bool :=
+  match nth_error ts i with
+  | Some T => outcome_eqb (construct T x) expected
+  | None => false
+  end.
